@@ -61,6 +61,8 @@ class Protocol:
         self.kept = self._kept_keys()
         self.kept_reads = self._kept_reads()
         self.reports = []  # (entry, kind, obligation, exit line)
+        self.stale_reads = []  # (entry, func, cached attr, line, categories, origin of the unflushed write)
+        self.track_stale_reads = False
         self.visited_funcs = set()
         self.write_sites = set()
         self.entry_writes = {}
@@ -721,9 +723,54 @@ class Protocol:
         return False
 
     # -- expression evaluation: calls and walrus ----------------------------------------------------------------
+    def cached_read_sets(self):
+        if getattr(self, '_cached_reads', None) is None:
+            reg = self.repo.cache_registry(self.container)
+            self._cached_reads = {}
+            for key, f in reg.items():
+                if f.cache_kind == 'cached_property':
+                    cats = self.reads(f)
+                    cats.discard('ORDER?')
+                    # hash(atom) / hash(bond) read everything the __hash__ of Element / Bond hashes
+                    if self._hashes_state(f, set()):
+                        cats |= {'CHARGE', 'RADICAL', 'ISOTOPE', 'HCOUNT', 'ORDER'}
+                    self._cached_reads[f.name] = (key, cats)
+        return self._cached_reads
+
+    def _hashes_state(self, func, seen):
+        if func in seen:
+            return False
+        seen.add(func)
+        for n in ast.walk(func.node):
+            if isinstance(n, ast.Call) and isinstance(n.func, ast.Name) and n.func.id == 'hash':
+                return True
+            if isinstance(n, ast.Attribute) and isinstance(n.value, ast.Name) and n.value.id == 'self':
+                g = self.repo.lookup(self.container, n.attr)
+                if g is not None and g is not func and self._hashes_state(g, seen):
+                    return True
+        return False
+
+    def check_stale_reads(self, ctx, node, configs):
+        """a cached value of the receiver read while raw writes it depends on are still unflushed (and the key was not dropped explicitly since)"""
+        cr = self.cached_read_sets()
+        for n in ast.walk(node):
+            if isinstance(n, (ast.Lambda, ast.FunctionDef)):
+                continue
+            if isinstance(n, ast.Attribute) and isinstance(n.value, ast.Name) and n.value.id == 'self' and isinstance(n.ctx, ast.Load) and n.attr in cr:
+                key, cats = cr[n.attr]
+                for pend, facts in configs:
+                    if ('POPPED', key) in facts:
+                        continue
+                    hit = [o for o in pend if o[2] == ctx.recv and o[0] == 'FLUSH' and o[1] in cats]
+                    if hit:
+                        self.stale_reads.append((ctx.stack[0], ctx.func.fq, n.attr, getattr(n, 'lineno', 0), tuple(sorted({o[1] for o in hit})), hit[0][3]))
+                        break
+
     def eval_expr(self, ctx, node, configs, exits, stmt=None):
         if node is None:
             return configs
+        if configs and getattr(self, 'track_stale_reads', False):
+            self.check_stale_reads(ctx, node, configs)
         calls = []
         self._collect_calls(node, calls)
         for c in calls:
@@ -784,6 +831,9 @@ class Protocol:
 
     def do_call(self, ctx, call, configs, exits):
         f = call.func
+        if isinstance(f, ast.Attribute) and f.attr == 'pop' and src(f.value) == 'self.__dict__' and call.args and isinstance(call.args[0], ast.Constant):
+            k = call.args[0].value
+            return frozenset((p, frozenset(set(fa) | {('POPPED', k)})) for p, fa in configs)
         if isinstance(f, ast.Name):
             r = self.nested_call(ctx, call, configs)
             return configs if r is None else r
